@@ -617,7 +617,7 @@ v("C04", "unary-handler-ctx-detached", "inprocgrpc/in_process.go",
 
 	if meta, ok""", "R3", "ctx", "server context loses cancellation and deadline")
 v("C04", "request-unbound", "httpgrpc/client.go",
-  "reply, err := transport.RoundTrip(req.WithContext(cs.ctx))", "reply, err := transport.RoundTrip(req)", "R3", "request-ctx", "stream request not bound to the call context")
+  "reply, err = transport.RoundTrip(req.WithContext(cs.ctx))", "reply, err = transport.RoundTrip(req)", "R3", "request-ctx", "stream request not bound to the call context")
 v("C04", "request-background", "httpgrpc/client.go",
   "reply, err := ch.Transport.RoundTrip(r.WithContext(ctx))", "reply, err := ch.Transport.RoundTrip(r.WithContext(context.Background()))", "R3", "request-ctx", "unary request bound to a background context")
 v("C04", "recv-without-ctx-arm", "httpgrpc/client.go",
@@ -2379,7 +2379,13 @@ v("C14", "status-code-parsed-unsigned", "httpgrpc/client.go",
 silent_all("handler-metadata-appended-after-status", [
     {"file": "httpgrpc/server.go", "old": """		toHeaders(sts.GetHeaders(), w.Header(), "")
 		toHeaders(sts.GetTrailers(), w.Header(), "X-GRPC-Trailer-")
-		if err != nil {""", "new": """		if err == nil {
+		if err == nil && isNil(resp) {
+			err = status.Error(codes.Internal, "handler returned neither error nor response message")
+		}
+		if err != nil {""", "new": """		if err == nil && isNil(resp) {
+			err = status.Error(codes.Internal, "handler returned neither error nor response message")
+		}
+		if err == nil {
 			toHeaders(sts.GetHeaders(), w.Header(), "")
 			toHeaders(sts.GetTrailers(), w.Header(), "X-GRPC-Trailer-")
 		}
@@ -2860,6 +2866,36 @@ v("C12", "service-uri-unguarded-slice", "internal/call_options.go",
 v("C05", "stream-request-bound-to-callers-context", "httpgrpc/client.go",
   "transport.RoundTrip(req.WithContext(cs.ctx))", "transport.RoundTrip(req)", "R13", "request-ctx",
   "the stream's own cancel no longer ends the exchange")
+
+# ------------------------------------------------------------------ D27 and wave 8 answers
+v("C05", "d27-drain-before-completion", "httpgrpc/client.go",
+  "x", "y", "R6", "reply-drained-after-completion",
+  "pre-fix D27: the reply is drained before the completion step, on the trailer path under rMu with the request pipe open",
+  edits=[{"file": "httpgrpc/client.go", "old": "		if reply != nil {\n			// Drain the reply only after the stream has been marked done and\n			// the request pipe closed (and rMu released): the server may be\n			// waiting for the end of the request body before it ends the reply.\n			defer func() {\n				ioutil.ReadAll(reply.Body)\n				reply.Body.Close()\n			}()\n		}\n", "new": ""},
+         {"file": "httpgrpc/client.go", "old": "		reply = nil\n		onReady(statusFromContextError(err), nil)\n		return\n	}\n", "new": "		reply = nil\n		onReady(statusFromContextError(err), nil)\n		return\n	}\n	defer func() {\n		ioutil.ReadAll(reply.Body)\n		reply.Body.Close()\n	}()\n"}])
+v("C05", "drain-deferred-after-the-unlock", "httpgrpc/client.go",
+  "x", "y", "R6", "reply-drained-after-completion",
+  "the drain is deferred by the completion step, but after the unlock was: it runs first, with rMu held",
+  edits=[{"file": "httpgrpc/client.go", "old": "		if reply != nil {\n			// Drain the reply only after the stream has been marked done and\n			// the request pipe closed (and rMu released): the server may be\n			// waiting for the end of the request body before it ends the reply.\n			defer func() {\n				ioutil.ReadAll(reply.Body)\n				reply.Body.Close()\n			}()\n		}\n		if !rMuHeld {\n			cs.rMu.Lock()\n		}\n		defer cs.rMu.Unlock()\n",
+          "new": "		if !rMuHeld {\n			cs.rMu.Lock()\n		}\n		defer cs.rMu.Unlock()\n		if reply != nil {\n			defer func() {\n				ioutil.ReadAll(reply.Body)\n				reply.Body.Close()\n			}()\n		}\n"}])
+v("C01", "send-header-flushes", "httpgrpc/server.go",
+  "		s.w.WriteHeader(http.StatusOK)\n		s.headersSent = true\n", "		s.w.WriteHeader(http.StatusOK)\n		if f, ok := s.w.(http.Flusher); ok {\n			f.Flush()\n		}\n		s.headersSent = true\n", "R12", "flushes-outside-the-frame-writer",
+  "the first flush makes net/http drop the unread rest of the request body")
+v("C05", "done-signal-noop-for-server-streams", "inprocgrpc/in_process.go",
+  "	svrDoneCtx, svrDoneCancel := context.WithCancel(svrCtx)\n", "	svrDoneCtx, svrDoneCancel := context.WithCancel(svrCtx)\n	if !md.ClientStreams {\n		svrDoneCancel()\n		svrDoneCancel = func() {}\n		svrDoneCtx = svrCtx\n	}\n", "R7", "done-signal-is-a-real-cancel",
+  "no release of a blocked sender for methods 'that send only once'")
+v("C19", "desc-var-assembled-by-hand", "cmd/protoc-gen-grpchan/protoc-gen-grpchan.go",
+  "	return names.GoNameOfExportedServiceDesc(sd).Name\n", "	return names.CamelCase(sd.GetName()) + \"_ServiceDesc\"\n", "R7", "desc-var-from-GoNames",
+  "the descriptor variable's name is assembled from the service name")
+v("C09", "lenient-metadata-skips-the-timeout", "httpgrpc/server.go",
+  "	md, err := asMetadata(h)\n	if err != nil {\n		return parent, cancel, err\n	}\n", "	md, err := asMetadata(h)\n	if err != nil {\n		if md == nil {\n			return parent, cancel, err\n		}\n		return metadata.NewIncomingContext(parent, md), cancel, nil\n	}\n", "R5", "timeout-header-read-on-every-accepting-path",
+  "a lenient branch returns before the timeout header is looked at")
+v("C14", "bare-499-when-request-context-done", "httpgrpc/server.go",
+  "		toHeaders(sts.GetHeaders(), w.Header(), \"\")\n		toHeaders(sts.GetTrailers(), w.Header(), \"X-GRPC-Trailer-\")\n		if err == nil && isNil(resp) {", "		if r.Context().Err() != nil {\n			writeError(w, 499)\n			return\n		}\n		toHeaders(sts.GetHeaders(), w.Header(), \"\")\n		toHeaders(sts.GetTrailers(), w.Header(), \"X-GRPC-Trailer-\")\n		if err == nil && isNil(resp) {", "R3", "every-failure-carries-the-status-header",
+  "a failed call is answered without the status header")
+v("C04", "unary-reply-decoded-in-the-reader-goroutine", "httpgrpc/client.go",
+  "		b, err = ioutil.ReadAll(reply.Body)\n		reply.Body.Close()\n", "		b, err = ioutil.ReadAll(reply.Body)\n		reply.Body.Close()\n		if err == nil {\n			err = codec.Unmarshal(b, resp)\n		}\n", "R10", "response-not-filled-by-its-goroutines",
+  "the reader goroutine fills the caller's message, possibly after the call returned Canceled")
 
 
 def main():
